@@ -6,6 +6,8 @@
 package controllers
 
 import (
+	"k8s.io/client-go/util/workqueue"
+
 	"github.com/kubewharf/kubegateway/pkg/syncqueue"
 )
 
@@ -23,3 +25,8 @@ func (m *UpstreamClusterController) VerifC10WrapHandler(wrap func(syncqueue.Sync
 
 // VerifC10QueueLen is the number of items waiting in the controller's work queue.
 func (m *UpstreamClusterController) VerifC10QueueLen() int { return m.queue.Queue().Len() }
+
+// VerifC10WrapQueue decorates the work queue inside the controller's SyncQueue (to be called before Run).
+func (m *UpstreamClusterController) VerifC10WrapQueue(wrap func(workqueue.RateLimitingInterface) workqueue.RateLimitingInterface) {
+	m.queue.VerifC10WrapQueue(wrap)
+}
